@@ -9,7 +9,7 @@ class P(StreamProperty):
                 'C08_returned_le']
     rule = ('sessions of every codec (RS 2^8, RS 2^m m=4/8, LDPC-Staircase) and role (encoder, decoder, encoder-and-decoder) released at EVERY point of their '
             'life: unconfigured, after rejected parameters, configured, after each prefix of encoding and of decoding histories (IT-complete, ML-complete, '
-            'failed, duplicates, both submission APIs, callbacks returning a buffer/NULL), after finish. The harness attributes every heap block to the '
+            'failed, duplicates, both submission APIs, callbacks returning a buffer/NULL), after finish; heavy-column LDPC sessions (N1 up to n-k, repairs first) whose per-call scratch tables grow. The harness attributes every heap block to the '
             'session call that allocated it (sanitizer malloc/free hooks); after release it reports the blocks still live, split into those the API documents as '
             'application-owned (decoded source symbols not received and not placed in a callback buffer, repair symbols built into a NULL slot) and others; '
             'oracle: others = 0, LeakSanitizer silent at exit, no double free / free of an application pointer (ASan); the model predicts the first count exactly; '
@@ -110,6 +110,16 @@ class P(StreamProperty):
             head.append(cfg.payload_line(0))
             steps = ['recv 0 %d' % e for e in order] + ['finish 0']
             prefixes(head, steps, cfg, role, every=max(1, len(steps) // 4))
+        # heavy-column LDPC sessions (small k, N1 up to n-k, repairs first): one submission brings many equations to one unknown, the
+        # decoder's per-call scratch tables grow; released after finish and at a few earlier points
+        for j, (cfg, order) in enumerate(gens.dense_column_configs(rng, 18 if tier == 'quick' else 200) + gens.star_configs(rng, 6 if tier == 'quick' else 100)):
+            role = 2 if j % 3 else 3
+            head = ['new 0 %d %d' % (cfg.codec, role), cfg.params_line(0)]
+            cb = ['none', 'buf', 'null', 'mix'][j % 4]
+            if cb != 'none': head.append('cb 0 %s' % cb)
+            head.append(cfg.payload_line(0))
+            steps = ['recv 0 %d' % e for e in order] + ['finish 0']
+            prefixes(head, steps, cfg, role, every=max(1, len(steps) // 3))
         return cases
 
 _p = P()
